@@ -37,6 +37,9 @@ type job struct {
 
 var r *vlib.Run
 
+// saves that were aborted half way (event utxo.save.file:abort-removed) over all jobs / over the jobs made to drive them
+var abortedSaves, abortedInAbortJobs, abortJobs int
+
 func workDir() string { return vlib.Root() + "/.work" }
 
 func buildWorker() (string, error) {
@@ -228,6 +231,23 @@ func judge(o *vlib.Oracle, j job, wo *WorkerOut, races []raceReport) {
 				map[string]interface{}{"job": j, "cfg": rpl.Cfg, "trace": line})
 		}
 		r.Hit(fmt.Sprintf("saves-per-replay:%d", min(rpl.Saves, 9)))
+		for _, e := range rpl.Events {
+			switch e {
+			case "utxo.save.file:abort-removed":
+				// a save that was ABANDONED half way: the file goroutine closed and removed the temporary file (the hook checked that
+				// nothing carries the name UTXO.db at that moment)
+				r.Hit("snapshot:aborted-removed")
+				abortedSaves++
+				if strings.Contains(j.Only, "abort") {
+					abortedInAbortJobs++
+				}
+			case "utxo.save.file:renamed":
+				r.Hit("snapshot:completed-renamed")
+			}
+		}
+	}
+	if strings.Contains(j.Only, "abort") {
+		abortJobs++
 	}
 	for _, s := range wo.Snaps {
 		key := fmt.Sprint(j.Seed, j.Shard, s.Cfg, s.Where, s.Hash, s.Dump)
@@ -240,6 +260,9 @@ func judge(o *vlib.Oracle, j job, wo *WorkerOut, races []raceReport) {
 		}
 		r.Eval("snapshot:"+s.Where, key)
 		switch {
+		case s.Err != "" && (s.Where == "after-abort" || s.Where == "abort-full"):
+			r.PropFail("aborted-snapshot:"+s.Where, fmt.Sprintf("a snapshot was aborted while it was being written (schedule %s): %s (header height %d hash %s)", s.Cfg, s.Err, s.Height, s.Hash),
+				map[string]interface{}{"job": j, "snapshot": s})
 		case s.Err != "":
 			r.PropFail("snapshot-corrupt:"+s.Where, fmt.Sprintf("UTXO.db visible under schedule %s (%s) does not parse as a snapshot: %s (header height %d hash %s)", s.Cfg, s.Where, s.Err, s.Height, s.Hash),
 				map[string]interface{}{"job": j, "snapshot": s})
@@ -391,10 +414,11 @@ func main() {
 	}
 	defer o.Close()
 	r.Assume = []string{
-		"UnspentDB.Save/Idle/Close/CommitBlockTxs/UndoBlockTxs/PurgeUnspendable/DefragMap/AbortWriting are executed by one goroutine (gocoin's main loop) - no longer a bare assumption: gen_c11 (thread.go) lists every call site of them in the whole client with the goroutines that can reach it (call graph over go/types incl. function values and the text UI's command table with its thread flag) and the kernel decides that none is reachable from another goroutine (source_thread_facts); foreign_save_counterexample shows what one direct Save() on another goroutine does. Not resolved by that call graph: calls through interface methods, function values returned from functions, reflection",
+		"UnspentDB.Save/Idle/Close/CommitBlockTxs/UndoBlockTxs/PurgeUnspendable/DefragMap/AbortWriting are executed by one goroutine (gocoin's main loop) - no longer a bare assumption: gen_c11 (thread.go) lists every call site of them in the whole client with the goroutines that can reach it (call graph over go/types incl. function values and the text UI's command table with its thread flag) and the kernel decides that none is reachable from another goroutine (source_thread_facts); foreign_save_counterexample shows what one direct Save() on another goroutine does. an operation used as a method value / callback argument (`f := db.Save; go f()`, time.AfterFunc(d, db.AbortWriting)) counts as a site executed by another goroutine. Not resolved by that call graph: calls through interface methods, function values returned from functions, reflection",
 		"os.Create of the snapshot file succeeds in the MODEL; on the real code a failing os.Create is exercised by the directed scenario createfail (fix 881f68ff: the file goroutine now drains the channels and reports the file closed; before, the next save() parked in lastFileClosed.Wait and the next CommitBlockTxs hung holding db.Mutex)",
 		"UnspentDB.commit: the add/delete workers of one block touch pairwise different map keys - the map key is the first 8 bytes of the txid (UtxoKeyType), so this ASSUMES that no two transactions created or spent by one block share their first 8 txid bytes (hypothesis Nodup of disjoint_updates_commute; a collision needs about 2^32 work; checked on every block of the scenarios run: histogram commit:update-keys-distinct)",
 		"memory-level data races are observed only through the Go race detector on the schedules that were run",
+		"the generated shape facts are tests on flattened event lists: they do not pin conditions other than the polarity of a negation, the value assigned to commitTxs' wait flag, the loop / exit tests of save() and of its file goroutine (which verdict goes to exit_channel, draining before the rename) or map indices - edits there are left to the race-detector / snapshot runs (job abort drives the abort path: histogram snapshot:aborted-removed)",
 		"UTXO records kept in gocoin's recycling allocator (lib/others/memory, the client's default; replays named …alloc) live in mmap'ed memory the race detector does not see: a use of a freed record is observed only through VALUES there (UTXO dump, undo-file digest, snapshot content), under a seeded slow undo writer; the sequential reference always runs on the Go heap",
 		"Model/ConcOwn (Ring, Undo, Collect) abstracts a chunk / a record slot / a spent-output entry to one cell; that save(), the allocator and commitTxs refine them is tied by the three regenerated ownership facts (spawnAfterComplete, chunkBuffersOwned, changeSetOwnsScripts) and otherwise correspondence-tested only",
 	}
@@ -471,11 +495,14 @@ func main() {
 		for s := 0; s <= 1; s++ {
 			jobs = append(jobs, job{Seed: r.Seed, Shard: s, Tier: "thorough", Only: "operator"})
 		}
+		for s := 0; s <= 1; s++ {
+			jobs = append(jobs, job{Seed: r.Seed, Shard: s, Tier: "thorough", Only: "abort,abortfull"})
+		}
 	} else {
 		jobs = []job{{Seed: r.Seed, Shard: 0, Tier: "quick", Only: "recycle"}, {Seed: r.Seed, Shard: 0, Tier: "quick", Only: "chain"},
 			{Seed: r.Seed, Shard: 1, Tier: "quick", Only: "chain"}, {Seed: r.Seed, Shard: 0, Tier: "quick", Only: "compr"},
 			{Seed: r.Seed, Shard: 0, Tier: "quick", Only: "resave,bigsnap"}, {Seed: r.Seed, Shard: 0, Tier: "quick", Only: "createfail"},
-			{Seed: r.Seed, Shard: 0, Tier: "quick", Only: "operator"}}
+			{Seed: r.Seed, Shard: 0, Tier: "quick", Only: "operator"}, {Seed: r.Seed, Shard: 0, Tier: "quick", Only: "abort,abortfull"}}
 	}
 	type result struct {
 		j     job
@@ -524,14 +551,21 @@ func main() {
 		judge(o, x.j, x.wo, x.races)
 		nrep += len(x.wo.Replays)
 	}
+	if abortJobs > 0 && abortedInAbortJobs == 0 && r.Replay == "" {
+		// the jobs built to abandon snapshots half way (paced writer + ballast of > 64 KB; FIFO with a full data_channel) did not
+		// abort a single one: either the real code no longer aborts (abortWriting waits for the complete snapshot - then nothing
+		// of the abort path was run), or the scenario lost its grip; in both cases the tie did not observe what it claims
+		r.TieFail("abort-path-not-driven", "no snapshot was aborted half way in the jobs abort/abortfull (event utxo.save.file:abort-removed never seen): the abort path of UnspentDB.save and of its file goroutine was not executed", map[string]interface{}{"job": job{Seed: r.Seed, Tier: "quick", Only: "abort,abortfull"}})
+	}
+	r.Extra["snapshots_aborted_half_way"] = abortedSaves
 	r.Extra["race_build"] = "go build -race -tags verif ./cmd/c11 (worker), GORACE=halt_on_error=0"
 	r.Extra["replays_under_perturbed_schedules"] = nrep
 	r.Finish("cases: (1) every UTXO.db that became visible in a replay of the real code under a perturbed schedule (distinct by schedule, tip, content); "+
 		"(2) one vhook event trace per replay, checked by the Lean monitor; (3) commitTxs verdicts compared with the Lean fan-out model under a random schedule; "+
 		"(4) random programs x schedules of the Lean snapshot-protocol model (distinct by request; supports the theorems, which cover all of them). Non-trivial: a snapshot file with records, a trace with at least one save, a block with transactions, a model run with at least one step. "+
-		"The observable result of a block op includes a digest of the tip's undo file; snapshots written to a stalled FIFO (directed bigsnap, more chunks than data_channel holds) count under snapshot:slow-disk.",
+		"The observable result of a block op includes a digest of the tip's undo file; snapshots written to a stalled FIFO (directed bigsnap, more chunks than data_channel holds) count under snapshot:slow-disk. Snapshots ABANDONED half way (job abort: ballast of > 64 KB, paced writer, the next block / reorg / AbortWriting arriving between two chunks; directed abortfull: saver parked on a full data_channel) are counted in histogram snapshot:aborted-removed and extra.snapshots_aborted_half_way; zero of them in those jobs is a tie failure (abort-path-not-driven).",
 		"The synchronisation protocols (snapshot writer vs committer, commitTxs fan-out, BlockDB publish-last, disjoint-key updates, atomic sums, compute-once caches) are modelled as transition systems with an arbitrary scheduler; "+
-			"snapshot_atomic, no_deadlock (data_channel capacity >= 1), commit_schedule_independent and the supporting invariants are proved in Lean for ALL programs and interleavings of those systems; the lock discipline and 16 protocol-shape facts are decided by the kernel on the synchronisation sequences regenerated from the source on this run. "+
+			"snapshot_atomic, no_deadlock (data_channel capacity >= 1), commit_schedule_independent and the supporting invariants are proved in Lean for ALL programs and interleavings of those systems; the lock discipline and the protocol-shape facts (source_protocol_facts) are decided by the kernel on the synchronisation sequences regenerated from the source on this run. "+
 			"What no executable Lean model exhibits — and is therefore only explored, not proved — is the Go memory model itself: word tearing and reordering of unsynchronised accesses, the real goroutine scheduler, map-iteration order, and OS file semantics (two writers on one inode). Those, and the faithfulness of the hand-written transition systems beyond the shape facts, are covered by running the real code under the race detector with GOMAXPROCS 1..16 and pseudo-random yields/sleeps at every vhook point (chain scenarios, the directed same-tip resave, and a compressed-UTXO scenario with several SerializeC calls in flight), which samples schedules and proves nothing about the ones not run. "+
 			"Ownership of memory handed to another goroutine (chunk buffers of save(), undo entries vs the recycling record allocator, the start order of the script workers) is modelled in Model/ConcOwn.lean: safety for every schedule is proved for 'fresh buffer or ring of at least capacity+1', 'undo entries own copies', 'workers start after the collection', each with a counterexample for the alternative, and tied to the source by three regenerated facts; the real code is driven into those situations by taproot key-path consolidations (the sighash that reads all spent outputs), churn blocks on an aged recycling allocator with a slow undo writer, a run-to-block replay (one P, no yields) with Idle called twice and a commit right after Idle, and a big snapshot to a stalled disk. "+
 			"Which goroutine may start a snapshot: the protocol is proved for saves started by the committing goroutine (committer_started_saves_atomic) and broken by one direct Save() elsewhere (foreign_save_counterexample); that the node calls Save/Idle/Close/CommitBlockTxs/UndoBlockTxs/PurgeUnspendable/DefragMap/AbortWriting on its main goroutine only is regenerated from the whole client (call graph with function values and the text UI's command table) and decided by the kernel (source_thread_facts); job `operator` runs the real textui.MainThread on a piped keyboard next to a main loop that serves usif.UiChannel between blocks, a seeded operator typing saveutxo / utxodb / bchain / defrag map / ... mostly while a block is being committed.")
